@@ -28,13 +28,14 @@ Definition link_meta_eq (t s : stat) : Prop :=
   /\ st_mtime t = st_mtime s /\ st_devmajor t = st_devmajor s /\ st_devminor t = st_devminor s
   /\ st_xattrs t = st_xattrs s.
 
-(* canonical hard-link presentation: a link entry names an EARLIER entry that is the regular
-   file itself (empty Linkname: the first name of the inode in walk order), with the same
-   metadata and the same bytes.  Implies AbsDest.links_ok. *)
+(* canonical hard-link presentation: a link entry (a non-directory, non-symlink entry with a
+   Linkname: regular file, device or fifo alike) names an EARLIER entry that is the inode itself
+   (empty Linkname: the first name of the inode in walk order), with the same metadata and the
+   same bytes.  Implies AbsDest.links_ok. *)
 Definition links_canon (B : list AbsDest.entry) : Prop :=
   forall sb bb, In (sb, bb) B -> is_hardlink sb = true ->
   exists st bt, In (st, bt) B /\ st_path st = st_linkname sb /\
-                compare_path (st_path st) (st_path sb) = Lt /\ AbsDest.is_reg st = true /\
+                compare_path (st_path st) (st_path sb) = Lt /\ AbsDest.is_node st = true /\
                 st_linkname st = [] /\ link_meta_eq st sb /\ bt = bb.
 
 Definition link_meta_eqb (t s : stat) : bool :=
@@ -47,7 +48,7 @@ Definition links_canon_b (B : list AbsDest.entry) : bool :=
   forallb (fun e => negb (is_hardlink (fst e)) ||
      existsb (fun t => bytes_eqb (st_path (fst t)) (st_linkname (fst e))
                        && path_ltb (st_path (fst t)) (st_path (fst e))
-                       && AbsDest.is_reg (fst t) && is_empty (st_linkname (fst t))
+                       && AbsDest.is_node (fst t) && is_empty (st_linkname (fst t))
                        && link_meta_eqb (fst t) (fst e) && bytes_eqb (snd t) (snd e)) B) B.
 
 (* a well-formed listing with contents: strictly ascending in path order, ancestor-closed,
